@@ -1,0 +1,138 @@
+//go:build verif
+
+package heap
+
+import (
+	"fmt"
+	"strings"
+)
+
+// VerifIndexedDump renders the internal state of an indexed heap in a canonical, address-free form.
+// It is compiled only with the build tag "verif" and is used by the verification harness in /verif
+// to compare the implementation with its Lean model step by step. It never mutates the heap.
+//
+//	indexed binary:    n=<n> heap=[..] pos=[..] kvs=[(k,v) - ..]
+//	indexed binomial:  n=<n> head=<forest> nodes=[..]     node = (index key val order ^parentIndex children..)
+//	indexed Fibonacci: n=<n> ext=<forest> nodes=[..]      node = (index key val degree mark ^parentIndex children..)
+//
+// A forest is printed in list order (root list from head / from ext following next; child lists from
+// the child pointer following sibling / next). nodes[i] is printed as the pre-order number of the node it
+// points to in the printed forest ("-" for nil, "?" for a node that is not in the forest).
+func VerifIndexedDump[K, V any](h IndexedHeap[K, V]) string {
+	var b strings.Builder
+
+	switch t := h.(type) {
+	case *indexedBinary[K, V]:
+		fmt.Fprintf(&b, "n=%d heap=%v pos=%v kvs=[", t.n, t.heap, t.pos)
+		for i, kv := range t.kvs {
+			if i > 0 {
+				b.WriteByte(' ')
+			}
+			if kv == nil {
+				b.WriteByte('-')
+			} else {
+				fmt.Fprintf(&b, "(%v,%v)", kv.Key, kv.Val)
+			}
+		}
+		b.WriteByte(']')
+
+	case *indexedBinomial[K, V]:
+		num := map[*indexedBinomialNode[K, V]]int{}
+		budget := 1 << 20
+		var walk func(n *indexedBinomialNode[K, V])
+		walk = func(n *indexedBinomialNode[K, V]) {
+			for ; n != nil && budget > 0; n = n.sibling {
+				budget--
+				num[n] = len(num)
+				p := "-"
+				if n.parent != nil {
+					p = fmt.Sprintf("%d", n.parent.index)
+				}
+				fmt.Fprintf(&b, "(%d %v %v %d ^%s", n.index, n.key, n.val, n.order, p)
+				if n.child != nil {
+					b.WriteByte(' ')
+					walk(n.child)
+				}
+				b.WriteByte(')')
+			}
+		}
+		fmt.Fprintf(&b, "n=%d head=", t.n)
+		walk(t.head)
+		b.WriteString(" nodes=[")
+		for i, n := range t.nodes {
+			if i > 0 {
+				b.WriteByte(' ')
+			}
+			if n == nil {
+				b.WriteByte('-')
+			} else if k, ok := num[n]; ok {
+				fmt.Fprintf(&b, "%d", k)
+			} else {
+				b.WriteByte('?')
+			}
+		}
+		b.WriteByte(']')
+
+	case *indexedFibonacci[K, V]:
+		num := map[*indexedFibonacciNode[K, V]]int{}
+		budget := 1 << 20
+		badLinks := false
+		var walk func(entry *indexedFibonacciNode[K, V])
+		walk = func(entry *indexedFibonacciNode[K, V]) {
+			for n := entry; n != nil && budget > 0; {
+				budget--
+				num[n] = len(num)
+				if n.next == nil || n.prev == nil || n.next.prev != n || n.prev.next != n {
+					badLinks = true
+				}
+				p := "-"
+				if n.parent != nil {
+					p = fmt.Sprintf("%d", n.parent.index)
+				}
+				m := "."
+				if n.mark {
+					m = "*"
+				}
+				fmt.Fprintf(&b, "(%d %v %v %d %s ^%s", n.index, n.key, n.val, n.degree, m, p)
+				if n.child != nil {
+					b.WriteByte(' ')
+					walk(n.child)
+				}
+				b.WriteByte(')')
+				if n = n.next; n == entry {
+					break
+				}
+			}
+		}
+		fmt.Fprintf(&b, "n=%d ext=", t.n)
+		walk(t.ext)
+		b.WriteString(" nodes=[")
+		for i, n := range t.nodes {
+			if i > 0 {
+				b.WriteByte(' ')
+			}
+			if n == nil {
+				b.WriteByte('-')
+			} else if k, ok := num[n]; ok {
+				fmt.Fprintf(&b, "%d", k)
+			} else {
+				b.WriteByte('?')
+			}
+		}
+		b.WriteByte(']')
+		if badLinks {
+			b.WriteString(" badlinks")
+		}
+
+	default:
+		b.WriteString("unknown")
+	}
+
+	return b.String()
+}
+
+// VerifIndexedMaxDegree returns what indexedFibonacci.maxDegree computes for a heap holding n items.
+func VerifIndexedMaxDegree(n int) int {
+	h := &indexedFibonacci[int, int]{n: n}
+	return h.maxDegree()
+}
